@@ -4,6 +4,8 @@ from ..terms import TermBuilder
 from .. import rec
 
 REQUIRES = ['signature']
+USES_QUERIES = True
+USES_KNOWN_VALUES = True
 EXPLANATION = (
     "FLOW/WHO/GUARD/TABLE rules. C09.2: census of every call to Verifier::verify (the verification primitive P is the body that "
     "contains it); each must verify over bytes(digest(subject(receiver))) (C09.1). C09.1 signer side: the first Signer::sign* call signs "
@@ -443,6 +445,23 @@ def check(ctx):
         if a is not None and a[1][0] == 'closure' and meta_val(a[0]):
             crt = strip_sites(TermBuilder(F, F.closure(a[1][1])).return_term())
             good = m_call(crt, name='is_some') is not None and m_call(crt, name='is_some')[0] == P2
+        if not good:
+            # the same mapping written out: Ok(m) => Ok(m.is_some()), Err(e) => Err(e)  (match / if-let / `?` forms)
+            alts = [strip_sites(detry(t)) for bi_, si_, t in ret_defs(TermBuilder(F, hs)) if m_call(t, name='from_residual') is None]
+            oks = [x for x in alts if x[0] == 'agg' and x[2] == 'Ok']
+            errs = [x for x in alts if x[0] == 'agg' and x[2] == 'Err']
+            def is_some_of_matcher(v):
+                i = m_call(v, name='is_some')
+                if i is None:
+                    return False
+                y = strip_sites(detry(i[0]))
+                if y[0] == 'vfield' and y[2] == 'Ok':
+                    y = strip_sites(y[1])
+                return meta_val(y)
+            def err_of_matcher(v):
+                return v[0] == 'vfield' and v[2] == 'Err' and meta_val(strip_sites(v[1]))
+            good = len(oks) == 1 and len(oks) + len(errs) == len(alts) and is_some_of_matcher(strip_sites(oks[0][3][0])) \
+                and all(err_of_matcher(strip_sites(e[3][0])) for e in errs)
         if good:
             ctx.ok('C09.5', ctx.site(hs), 'has-signature = matcher(..).map(is_some)')
         else:
